@@ -141,6 +141,10 @@ def o_no_panic(spec, tr):
             out.append("%r: the collector cycle completed%s but the reporter was not called" % (tr.lines[i], " and flush() returned" if "flush" in tr.lines[i] else ""))
         else:
             out.append("%r: the reporter was called although no reporter / no cycle was expected" % tr.lines[i])
+    for i, o in enumerate(tr.outs):
+        if o.startswith("timeout waiting for the start-up cycle"):
+            out.append("%r: the background collector did not run (and report) a cycle after set_reporter — nothing would be delivered without a further call" % tr.lines[i])
+            break
     if tr.dead:
         k = next((i for i, o in enumerate(tr.outs) if o in ("<dead>", "timeout", "<no-output>")), None)
         where = ""
